@@ -1,7 +1,7 @@
 (* Correspondence driver for layer M1: the harness prints inputs and the implementation's outputs
    as terms of these types; [check_case] recomputes every output with the model and returns the
    ids of the sub-checks that differ.  No proofs here. *)
-From VV.M1 Require Export Validate Revision.
+From VV.M1 Require Export Validate Revision Oracles.
 
 Inductive ek :=
 | EkTableExists (t : string) | EkTableNotFound (t : string)
